@@ -28,16 +28,31 @@ RULE = (
     "(compute_all or differentiated subset, execute=True or, right after a call at the same input or at any input once outputs exist, execute=False) at a point of a pool of 2-4 grid points (or at the point of the previous call), optionally perturbed "
     "by less than the tolerance, optionally omitting defaulted inputs, passed as fresh arrays or as the caller's persistent "
     "arrays rewritten in place; add_differentiated_inputs/outputs; rebinding of a default; cache.clear(); re-creation of the "
-    "discipline on the same HDF5 file/node (singleton kept or forgotten). After the history every cached entry is requested "
+    "discipline on the same HDF5 file/node (singleton kept or forgotten); discipline.set_cache(same or other type, other tolerance) "
+    "in the middle of the history (from then on the oracle is that of a fresh cache of the requested policy and tolerance); a "
+    "composite step 'linearize without execution with the caller's persistent arrays, then rewrite them in place and execute'; "
+    "with tolerance 0 the Jacobians may be approximated by finite differences (compared within 1e-4). After the history every cached entry is requested "
     "once more with fresh arrays. Every returned output / requested Jacobian block is compared (exactly) with the numpy "
     "reference at the completed input (tolerance t>0: at the input or at an earlier requested input within t), the uncached "
     "twin is compared with the reference, the body's run log is compared with 'at most once per distinct completed input' "
     "for full caches, caller arrays are compared before/after each call and a reopened HDF5 cache is compared entry by entry. "
+    "A fourth drive takes an MDOChain of two cached harness disciplines (member caches Simple/MemoryFull with drawn tolerances) as "
+    "the subject: executions, analytic or finite-difference linearisations at grid points, assignments of chain.cache.tolerance "
+    "(including the value it already has), chain.set_cache and mode switches, against a fully uncached twin chain and the numpy "
+    "reference (non-trivial: an approximated Jacobian while a member tolerance exceeds the step, plus an execution). "
     "Non-trivial = history with an exactly repeated completed input, an in-place modification of a caller array passed "
     "earlier, and a linearisation; distinct = structural hash of the drawn (configuration, pool, history)."
 )
 ASSUMPTIONS = [
-    "inputs are float64 arrays of the declared sizes on a 0.25 grid (no NaN, no -0.0: keys are byte-hashed) plus perturbations "
+    "set_cache towards HDF5 always names a new file (set_cache with the file and node of the current HDF5Cache is documented to "
+    "keep that cache); finite-difference Jacobians are only used with exact matching, because the perturbed inputs stay in the cache",
+    "chain subject: gemseo documents that the cache tolerance is set to zero while a Jacobian is approximated and that a process "
+    "discipline propagates a change of its cache tolerance to its disciplines; a chain without a cache of its own has no such "
+    "mechanism and is not generated; all requested points are >= 0.0625 apart at every level of the chain, outputs are compared "
+    "exactly until perturbed points were executed and within 1e-4 afterwards",
+    "inputs are float64 arrays of the declared sizes on a 0.25 grid (no -0.0: keys are byte-hashed; no NaN: the documented "
+    "tolerance criterion norm(new-cached) <= t*(1+norm) is undefined for NaN - the comparison is False, so under a tolerance a NaN "
+    "input matches any entry - and the property's quantifier does not list non-finite inputs) plus perturbations "
     "of a[0]; points of different grid classes are >= 0.24 apart, points of one class are < tolerance/2 apart, so 'within t' is "
     "unambiguous for both the documented metric (norm of the cached array) and the implemented one (norm of the new array)",
     "linearize(execute=False) is generated right after a call at the same completed input and also at any other input once the "
@@ -835,6 +850,7 @@ def case_transparency(p, ctx):
 # =========================================================================== process discipline (chain) as the subject
 F4 = "chain_tolerance_hook_lost_after_set_cache"
 F5 = "chain_cache_hit_then_members_linearised_at_their_last_inputs"
+F6 = "approximated_jacobian_from_base_value_served_within_tolerance"
 
 
 def chain_ref(x):
@@ -953,6 +969,7 @@ def case_chain(p, ctx):
     ever_fd = fd
     chain_seen, chain_jac = set(), set()  # points requested / linearised since the chain's cache was created (full cache)
     members_at = None  # point of the last request that really executed the members (None: unknown or a perturbed point)
+    perturbed = False  # perturbed points of an approximated Jacobian were executed (and may sit in the caches)
     flags = Counter()
     pool = []
     for pt in p["pool"]:
@@ -1016,6 +1033,13 @@ def case_chain(p, ctx):
             flags["analytic_jacobian_after_chain_cache_hit_with_members_elsewhere"] += 1
             if ctx.known(F5):
                 continue
+        if fd and perturbed and max([*sub_tols, float(chain.cache.tolerance)]) >= 1e-7:
+            # the base value f(x) of the finite difference is served by entries stored under the tolerance, where a perturbed
+            # point of an earlier approximation (x + 1e-7) answers for x: the error of the base value is of the order of the
+            # step and the Jacobian is that of no input (known finding C05-F6)
+            flags["approximated_jacobian_after_an_earlier_one_with_tolerance_above_the_step"] += 1
+            if ctx.known(F6):
+                continue
         if fd and max(sub_tols) >= 1e-7:
             flags["approximated_jacobian_with_member_tolerance_above_the_step"] += 1
         res = chain.linearize({"x": x.copy()}, compute_all_jacobians=True)
@@ -1034,6 +1058,7 @@ def case_chain(p, ctx):
         flags["linearize_approximated" if fd else "linearize_analytic"] += 1
         if fd:
             members_at = None
+            perturbed = True
         elif not chain_hit:
             members_at = key
         chain_seen.add(key)
